@@ -92,8 +92,18 @@ type ReplayFile struct {
 	ShrinkRun int               `json:"shrink_executions"`
 }
 
+var exitHooks []func()
+
+// OnExit registers cleanup to run when Main returns (scratch files made by a check's Init).
+func OnExit(f func()) { exitHooks = append(exitHooks, f) }
+
 // Main dispatches the sub-commands every worker binary understands. It returns the exit code.
 func Main(args []string) int {
+	defer func() {
+		for _, f := range exitHooks {
+			f()
+		}
+	}()
 	if len(args) == 0 {
 		fmt.Fprintln(os.Stderr, "usage: describe|worker|shrink|replay ...")
 		return 2
